@@ -1,14 +1,194 @@
-# Human-written part of MANIFEST.json per property.
+# Human-written part of MANIFEST.json per property (level text, trusted base, technique).
 HOOK_COMMITS = []
 NOT_APPLICABLE = {}
+
+_T_RAPID = "property-based testing (pgregory.net/rapid generators + shrinking)"
+
 META = {
+    "C01": {
+        "text": ("Exploration: every supported threshold signing protocol is run end to end through its network runner over a harness-owned "
+                 "Delivery for drawn (policy of any of the five families incl. non-ideal ones, shareholder-ID regime, key generation method, "
+                 "qualified quorum minimal or not, curve/hash/Schnorr flavour, message class, compiler, seeds); the resulting signature must "
+                 "be identical for all aggregators/parties, accepted by the library verifier and by an INDEPENDENT verifier (crypto/ecdsa, "
+                 "math/big curve model) for exactly that message. Sampling, not proof; Mina's Poseidon challenge has no independent check."),
+        "design_ref": "DESIGN.md section 6, C01",
+        "note": "Trusts math/big, crypto/ecdsa and the harness reference curve model (self-tested against crypto/elliptic, RFC vectors); Paillier-based protocols use 1024-2048-bit test keys.",
+        "technique": _T_RAPID + "; oracle = independent signature verifiers (differential)",
+    },
+    "C02": {
+        "text": ("Exploration with exhaustive small scopes: all threshold/unanimity policies up to 6 holders, every CNF antichain up to 4 (5 in "
+                 "thorough), every hierarchical layout up to 6, small gate trees, each under two ID maps and for EVERY subset of holders, plus "
+                 "drawn larger policies: IsQualified / MSP.Accepts / CanReconstruct equal a brute-force policy evaluator written from the "
+                 "definitions; the target vector lies in the row span of a set's MSP rows exactly for qualified sets (independent Gaussian "
+                 "elimination = the privacy criterion), with constructive privacy witnesses; reconstruction, linearity and additive "
+                 "conversion for KW, Shamir, additive, ISN, Tassa, Feldman, Pedersen; refused policies refuse with an error; Tassa admission "
+                 "against an exact big-integer evaluation of the documented bound with a guard band."),
+        "design_ref": "DESIGN.md section 6, C02",
+        "note": "Privacy is decided by the algebraic span criterion plus sampled witnesses, not statistically; all fields are ~255-bit.",
+        "technique": "exhaustive enumeration of small scopes + " + _T_RAPID + "; oracle = independent policy evaluator and math/big linear algebra",
+    },
+    "C03": {
+        "text": ("Exploration: trusted dealing, Gennaro (three NIZK compilers) and Canetti DKGs run through their network runners for drawn "
+                 "(policy, IDs, group among seven, seeds); all parties must end with identical public key / verification vector / MSP / public "
+                 "shares, private shares lifting to public shares, every subset reconstructing dlog(pk) iff qualified (scalar and in the "
+                 "exponent), byte-identical CBOR reload, and keys that never repeat and change with any single party's random stream."),
+        "design_ref": "DESIGN.md section 6, C03",
+        "note": "Lifting uses the library's scalar multiplication (checked separately by C14); lindell17/cggmp21 key generation at production size is not run.",
+        "technique": _T_RAPID + "; oracle = agreement invariants over all subsets + independent policy model",
+    },
+    "C04": {
+        "text": ("Fault enumeration: for every protocol scenario (session, AOR, Gennaro, Canetti, redistribution x3, Lindell22, DKLs23, "
+                 "Lindell17) one party's outgoing message of a drawn round is altered ON THE WIRE by a structure-aware CBOR mutator: every "
+                 "leaf path class of every message type x operators {bit flip, replace by a same-field value of another sender/recipient/"
+                 "parallel session, swap, zero, int+-1, truncate/extend arrays, whole-message replay of another sender or a parallel session, "
+                 "swap recipients, drop}; unicasts for one recipient, broadcasts identically for all (through echo broadcast). Oracle: no "
+                 "honest party panics or hangs; every blamed identity is the deviator; whatever honest parties/aggregators output passes the "
+                 "C01/C03 output oracles; an alteration of a bound leaf is rejected by the recipient (unicast) or some honest party "
+                 "(broadcast) - the explicit free-list names the leaves a sender may choose afresh."),
+        "design_ref": "DESIGN.md section 6, C04",
+        "note": "Single static deviator, wire-level faults only (no adaptive prover); detection that is probabilistic with 2^-128 error is treated as certain; the free-list is part of the trusted base and is justified entry by entry in harness/c04/freelist_test.go.",
+        "technique": "fault injection driven by " + _T_RAPID + " over an enumerated (message type x leaf class x operator) space; oracle = blame/validity invariants",
+    },
+    "C05": {
+        "text": ("Exploration: Feldman and Pedersen VSS over drawn policies (all families, non-ideal rows), groups, dealers and 1-4 combined "
+                 "dealings; unaltered shares verify (also against Op-combined vectors), every single alteration of a share coordinate, length, "
+                 "claimed holder or blinding fails, an altered verification-vector entry fails EXACTLY for the holders whose MSP rows have a "
+                 "non-zero coefficient in that column (decided with math/big on the matrix), wrong-length vectors are refused, reconstruction "
+                 "in the exponent gives the committed value, NewBaseShard accepts iff the share matches."),
+        "design_ref": "DESIGN.md section 6, C05",
+        "note": "Lifting of reference values uses the library's scalar multiplication (C14 covers it).",
+        "technique": _T_RAPID + "; oracle = two-directional accept/reject predicate computed from the MSP matrix",
+    },
+    "C06": {
+        "text": ("Exploration of operation HISTORIES with a rapid state machine: refresh / recover / redistribute (new family, holder set, "
+                 "anchor on/off) / sign / reload in any order; after every step the public key is unchanged, new shards verify, every subset of "
+                 "current holders reconstructs exactly the model secret iff qualified, signatures verify under the original key, and "
+                 "mixed-epoch share sets never yield the secret or a valid signature."),
+        "design_ref": "DESIGN.md section 6, C06",
+        "note": "Histories are finite and short; a full OLD quorum legitimately still works and is not asserted against.",
+        "technique": "stateful (model-based) " + _T_RAPID + "; oracle = invariant against a reference model of the secret",
+    },
+    "C07": {
+        "text": ("Exploration by paired runs: same keys, message and contexts, streams differing for exactly one party; that party's first "
+                 "randomised message and the joint random value must change, other parties' first messages must not, nonce commitments never "
+                 "repeat over the campaign, a starved reader yields an error, and for the protocols shown to be sequential identical streams "
+                 "give byte-identical transcripts (which fails as soon as a site reads crypto/rand or the clock)."),
+        "design_ref": "DESIGN.md section 6, C07",
+        "note": "Statistical quality of sampling is out of scope; replay determinism is only an oracle for protocols without goroutine fan-out over the reader.",
+        "technique": _T_RAPID + "; oracle = metamorphic relations between paired runs",
+    },
+    "C08": {
+        "text": ("Exploration: for each sigma protocol x compiler x AND/OR composition: completeness in a cloned context; the same proof is "
+                 "rejected under another session, transcript state, prover label, statement or compiler; structure-aware mutation of the "
+                 "proof bytes (every leaf class) is rejected iff the decoded values change; special soundness (Extract from two accepting "
+                 "transcripts), simulator transcripts verify, OR proofs verify with exactly one witness; verifiers never panic."),
+        "design_ref": "DESIGN.md section 6, C08",
+        "note": "Soundness against an adaptive cheating prover and zero-knowledge are not decidable by generation; Paillier/CGGMP21 proofs use 1024-bit fixtures.",
+        "technique": _T_RAPID + " + structure-aware CBOR mutation; oracle = accept/reject metamorphic relations",
+    },
+    "C09": {
+        "text": ("Exploration: base OTs, SoftSpoken extension and both random-VOLE multipliers driven round by round through CBOR for drawn "
+                 "sizes, curves, choice vectors and inputs: receiver output equals the chosen sender message, the two sender messages differ, "
+                 "multiplier outputs sum to the product (math/big); every single-field alteration of the consistency-check messages makes the "
+                 "other side abort."),
+        "design_ref": "DESIGN.md section 6, C09",
+        "note": "ecbbot has no consistency check of its own (its alterations are exercised inside DKLs23 under C04).",
+        "technique": _T_RAPID + " + field-level fault injection; oracle = correlation equations",
+    },
+    "C10": {
+        "text": ("Exploration: session setup (round-by-round and runner API) for drawn quorums and ID maps: equal session id and transcript "
+                 "state, symmetric and pairwise-distinct seeds, sub-contexts agreeing inside and differing across sub-quorums, zero shares "
+                 "summing to the identity; wire faults in every leaf of every setup message with a bound/free table derived from the protocol: "
+                 "a non-matching opening is rejected and blamed by the recipient."),
+        "design_ref": "DESIGN.md section 6, C10",
+        "note": "Group addition used for the zero-sum check is the library's (C14).",
+        "technique": _T_RAPID + " + wire-level fault injection; oracle = agreement/symmetry invariants",
+    },
+    "C11": {
+        "text": ("Exploration of SCHEDULES with a rapid state machine whose Delivery is owned by the property: send / deliver in any order / "
+                 "duplicate / conflict / inject / receive / cancel+retry / close against a reference mailbox model, with an exact hook-free "
+                 "deposit signal for the lost-wake-up check; echo broadcast with an equivocating sender; protocol runners under reordering and "
+                 "retransmission; thorough tier repeats under the race detector."),
+        "design_ref": "DESIGN.md section 6, C11",
+        "note": "Goroutine interleavings inside the router are sampled by the Go scheduler, not enumerated; liveness only as bounded waiting (ratio-based bound).",
+        "technique": "stateful (model-based) " + _T_RAPID + " with a property-controlled scheduler; oracle = reference mailbox model",
+    },
+    "C12": {
+        "text": ("Exploration: a registry of serialisable types with valid samples harvested from real protocol runs: deterministic canonical "
+                 "round trip; mechanically derived malformed containers (duplicate key, unknown field, indefinite length, trailing bytes) are "
+                 "rejected; structure-preserving mutations and raw bytes never panic and, if accepted, satisfy the validity predicate of the "
+                 "type's constructor; a non-test probe binary checks the key-size floor; native fuzz targets per family in the thorough tier."),
+        "design_ref": "DESIGN.md section 6, C12",
+        "note": "Validity predicates are as complete as the reading of each constructor; the registry lists the decoders it does not cover.",
+        "technique": _T_RAPID + " + structure-aware CBOR mutation + Go native coverage-guided fuzzing (thorough); oracle = round trip and validity predicates",
+    },
+    "C13": {
+        "text": ("Exploration with exhaustive flag/tag scopes: every curve x format x element class (identity, multiples, zero-coordinate, "
+                 "small-order, mixed-order, out-of-subgroup, twist) and mutated byte strings; encode/decode round trip and injectivity judged "
+                 "against an independent math/big curve model with its own decoders; every accepted byte string must denote a valid element "
+                 "of the type; wrong lengths/tags/off-curve inputs rejected; no panics; native fuzz targets per curve in the thorough tier."),
+        "design_ref": "DESIGN.md section 6, C13",
+        "note": "Trusts the harness curve model (constants typed in from the standards, self-tested against crypto/elliptic, crypto/ecdh, published encodings).",
+        "technique": _T_RAPID + " + exhaustive tag/flag enumeration + native fuzzing (thorough); oracle = differential against an independent curve model",
+    },
+    "C14": {
+        "text": ("Exploration with exhaustive exceptional-operand scopes: point and field operations of every curve against an independent "
+                 "math/big model (P-256 also crypto/elliptic, X25519 crypto/ecdh), all ordered pairs/triples of exceptional operand classes, "
+                 "edge scalars, MSM lengths 0..64; pairing judged by bilinearity / non-degeneracy laws."),
+        "design_ref": "DESIGN.md section 6, C14",
+        "note": "No independent pairing implementation exists offline: the pairing value itself is judged by algebraic laws only.",
+        "technique": _T_RAPID + " + enumeration of exceptional operand tuples; oracle = differential against an independent curve model, algebraic laws for the pairing",
+    },
+    "C15": {
+        "text": ("Exploration: ECDSA, BIP-340, configurable Schnorr, Mina and BLS: sign then verify with the library and an independent verifier; "
+                 "every single-component alteration rejected by both, with the documented ECDSA equivalence class handled two-directionally; "
+                 "agreement with crypto/ecdsa on drawn (r,s); recovery and normalisation; pinned published vectors; BLS aggregate/batch/PoP "
+                 "accept honest aggregates and reject each bad-contributor class."),
+        "design_ref": "DESIGN.md section 6, C15",
+        "note": "Mina (Poseidon) and the BLS pairing have no independent implementation offline; vectors are pinned copies under harness/c15/testdata.",
+        "technique": _T_RAPID + "; oracle = differential against crypto/ecdsa and a reference curve model + pinned vectors",
+    },
+    "C16": {
+        "text": ("Exploration: Paillier keys built from fixture primes (ordinary/Blum/safe, 1024-3072-bit N), plaintext and nonce edge classes, "
+                 "drawn sequences of homomorphic operations tracked in a math/big model: ciphertexts equal the textbook formula, decryption "
+                 "and opening return model values after every step, secret-key and public-key paths agree; ElGamal likewise over four groups."),
+        "design_ref": "DESIGN.md section 6, C16",
+        "note": "Key generation itself is not exercised here (fixtures from openssl); math/big is trusted.",
+        "technique": _T_RAPID + " with model-tracked operation sequences; oracle = math/big reference of the textbook formulas",
+    },
+    "C17": {
+        "text": ("Exploration plus one exhaustive small scope (Jacobi symbol for |x|<=64, odd y<=129): every exported arithmetic method of "
+                 "numct / num / modular / crt / znstar and nt.Jacobi differentially against math/big over operands of 0-4096 bits with "
+                 "announced-capacity, aliasing, sign and modulus classes; generated primes checked for primality, exact length and form."),
+        "design_ref": "DESIGN.md section 6, C17",
+        "note": "math/big is the trusted reference; degenerate conventions (zero ring, undocumented rounding) are recorded, not asserted.",
+        "technique": _T_RAPID + "; oracle = differential against math/big",
+    },
+    "C18": {
+        "text": ("Exploration: hash, Pedersen, integer and encryption-based commitments over drawn keys (sampled, extracted, trapdoor, exported), "
+                 "messages and witnesses: the committed triple opens under every view, every single semantic change of message, witness, key "
+                 "or commitment fails to open, equivocation opens under the exported key, drawn homomorphic operation sequences open to the "
+                 "tracked pair, transcript-derived keys are equal iff the transcripts are."),
+        "design_ref": "DESIGN.md section 6, C18",
+        "note": "Hiding is not testable by generation; internal formulas are deliberately not asserted.",
+        "technique": _T_RAPID + " with model-tracked operation sequences; oracle = open/reject metamorphic relations",
+    },
     "C19": {
-        "text": ("Exploration: rapid-generated pairs of transcript histories differing by one edit of 14 classes (metamorphic "
-                 "oracle: equal histories agree, different ones differ in every later extraction; clones independent), and "
-                 "generated (curve, message, DST) inputs to hash-to-curve judged by an independent math/big curve model for "
-                 "subgroup membership plus pinned RFC 9380 vectors. A sample, not a proof; injectivity is tested per edit class."),
+        "text": ("Exploration: rapid-generated pairs of transcript histories differing by one edit of 14 classes (equal histories agree, different "
+                 "ones differ in every later extraction; clones independent); hash-to-curve for ten curve types: deterministic, DST- and "
+                 "message-dependent, output in the prime-order subgroup of an independent curve model; full independent RFC 9380 implementations "
+                 "for P-256 and curve25519/edwards25519, independent expand_message and hash_to_field for all suites, 121 pinned vectors."),
         "design_ref": "DESIGN.md section 6, C19",
-        "note": "Trusts crypto/sha3 and math/big; collision resistance of cSHAKE256 is assumed (16-byte comparison).",
-        "technique": "property-based testing (rapid): metamorphic pair generator over operation histories + differential against an independent curve model and pinned vectors",
+        "note": "Collision resistance of cSHAKE256 is assumed (16-byte comparison); isogeny-based maps (k256, BLS, pasta) rest on vectors plus structural checks.",
+        "technique": _T_RAPID + "; oracle = metamorphic pair relation + differential against independent RFC 9380 code and pinned vectors",
+    },
+    "C20": {
+        "text": ("Exploration: polynomial evaluation, Lagrange / Vandermonde / Birkhoff interpolation (scalar and in the exponent) and matrix "
+                 "product, transpose, determinant, inverse, minor, lifting and SolveLeft/SolveRight over five scalar fields, with CONSTRUCTED "
+                 "rank deficiency and right-hand sides inside/outside the span: a solution is returned iff the reference rank test says one "
+                 "exists and every returned solution satisfies the system."),
+        "design_ref": "DESIGN.md section 6, C20",
+        "note": "Trusts the harness math/big linear algebra (self-tested by brute force over small primes).",
+        "technique": _T_RAPID + "; oracle = differential against independent math/big linear algebra + validity predicate for non-unique solutions",
     },
 }
